@@ -23,4 +23,5 @@ try:
         reply = open(os.path.join(d, "reply.txt")).read()
 except OSError:
     reply = "s UNSATISFIABLE\n" if b"\n#" not in b"\n" + data else "unsat\n"
+sys.stderr.write("Picked up JAVA_TOOL_OPTIONS: -Xmx2g\n")      # what a JVM prints; it is not part of the reply
 sys.stdout.write(reply)
